@@ -55,7 +55,7 @@ ASSUMPTIONS = [
     'watch thread and the service loop are out of scope',
 ]
 TRUSTED = ['pbt/fakezk.py', 'pbt/presence_sim.py']
-BUDGET = {'quick': 4000, 'thorough': 400000}
+BUDGET = {'quick': 48000, 'thorough': 800000}
 
 _KINDS = (['step'] * 10 + ['fin'] * 2 + ['wat'] * 3 + ['move'] * 3 +
           ['new'] * 1 + ['del'] * 2 + ['exp'] * 2 + ['rst'] * 1 +
